@@ -10,8 +10,9 @@ THEOREMS = ['C03_chain_spec', 'C03_chain_assert', 'C03_lalr_filters_copy', 'C03_
             'C03_cyk_returns_shape_of_derivation', 'C03_cyk_accepts_sentences', 'C03_cyk_unambiguous',
             'C03_cnf_link', 'C03_cyk_engine', 'C03_to_cnf_closure', 'C03_to_cnf_shape', 'C03_cnf_roundtrip',
             'C03_cyk_engine_to_cnf', 'C03_find_rule_size', 'C03_maybe_untaken',
-            'C03_example_rule', 'C03_example_size', 'C03_example_derivation']
-GEN_DEPS = []
+            'C03_example_rule', 'C03_example_size', 'C03_example_derivation', 'C03_conditions_are_source',
+            'C03_value_stack_driver', 'C03_resolve_walk_callbacks', 'C03_engines_agree', 'C03_engines_example']
+GEN_DEPS = ['ShapeHoles']
 RULE = ('(a) random compiled-rule records (0-5 symbols, terminals/rules, `_` names, filter_out, alias, template source, '
         'keep_all_tokens, expand1, empty_indices incl. inconsistent ones) x maybe_placeholders x ambiguous: the wrapper '
         'chain lark built (classes, to_include, append_none) and the result / exception of calling lark\'s real callback '
@@ -586,6 +587,12 @@ def correspond(ctx):
     recs = list(uniq.values())
     rng.shuffle(recs)
     callback_cases(ctx, recs[:ctx.scale(60, 300)], 'callback-compiled', False)
+    # (i) round 12: keep_all_tokens=True x %import of rules with anonymous literals (fixed corpus, every engine)
+    try:
+        import shapeimports
+        shapeimports.stream(ctx)
+    except Exception as ex:
+        ctx.violation('harness:keep-all-imports', {'error': repr(ex)[:300]}, False, repr(ex)[:300])
     DEFER.run(ctx, 'c03', 'c03_check')
     # (x) regression F44 (fixed in /repo): CYK's to_cnf lost unit-skip rules depending on the hash seed
     # (UnitSkipRule.__eq__ ignored lhs/rhs); the witness runs in fresh interpreters over hash seeds 0..11
@@ -629,6 +636,9 @@ def cyk_hashseed_bad(grammar, texts, seeds=range(12)):
 
 def replay(ctx, case):
     w = case['witness']
+    if w.get('imports_keep_all'):
+        import shapeimports
+        return shapeimports.bad(w, shapeimports.module_dir()) is not None
     if 'hashseed' in w:
         return cyk_hashseed_bad(w['grammar'], [w['text']]) is not None
     if 'fixed' in w:
